@@ -223,13 +223,14 @@ static void window_stats(const msig_t *s, int64_t a, int64_t b, wstat_t *w) {
 
 static int summary_is_f32(const dtype_t *t) { return jd_fsr_summary_bits(t->code) == 32; }
 
+#define PS(o) ((o)->prop_stats ? (o)->prop_stats : "C02")
 static int check_stats_request(struct jls_rd_s *rd, const model_t *m, int sig, const verify_opts_t *o,
                                int64_t start, int64_t incr, int64_t count, const struct jls_signal_def_s *def, int level) {
     const msig_t *s = &m->sig[sig];
     const dtype_t *t = s->dt;
     wstat_t all;
     window_stats(s, start, start + incr * count, &all);
-    if (!all.finite || all.gap) { v_count("C02", "requests_skipped_nonfinite_or_gap", 1); return 0; }
+    if (!all.finite || all.gap) { v_count(PS(o), "requests_skipped_nonfinite_or_gap", 1); return 0; }
     double *out = malloc((size_t) count * 4 * sizeof(double) + 8);
     memcpy((uint8_t *) out + (size_t) count * 32, CANARY, 8);
     v_api("jls_rd_fsr_statistics");
@@ -241,17 +242,17 @@ static int check_stats_request(struct jls_rd_s *rd, const model_t *m, int sig, c
              def->samples_per_data, def->entries_per_summary, (long long) msig_length(s));
     int bad = 0;
     if (memcmp((uint8_t *) out + (size_t) count * 32, CANARY, 8)) {
-        v_violation("C02", "overrun", wj, "jls_rd_fsr_statistics wrote past data_length entries");
+        v_violation(PS(o), "overrun", wj, "jls_rd_fsr_statistics wrote past data_length entries");
         bad = 1;
     }
     if (rc) {
-        if (t->bits == 64 && rc == JLS_ERROR_UNSUPPORTED_FILE) { v_count("C02", "requests_unsupported_64bit", 1); free(out); return bad; }
+        if (t->bits == 64 && rc == JLS_ERROR_UNSUPPORTED_FILE) { v_count(PS(o), "requests_unsupported_64bit", 1); free(out); return bad; }
         snprintf(key, sizeof(key), "error-return|rc=%d|level=%d|count%s1|%s", rc, level, count > 1 ? ">" : "=", fk(o));
-        v_violation("C02", key, wj, "in-range statistics request returned %d", rc);
+        v_violation(PS(o), key, wj, "in-range statistics request returned %d", rc);
         free(out);
         return 1;
     }
-    v_count("C02", level == 0 ? "requests_level0" : level == 1 ? "requests_level1" : level == 2 ? "requests_level2" : level == 3 ? "requests_level3" : "requests_level4plus", 1);
+    v_count(PS(o), level == 0 ? "requests_level0" : level == 1 ? "requests_level1" : level == 2 ? "requests_level2" : level == 3 ? "requests_level3" : "requests_level4plus", 1);
     int f32s = summary_is_f32(t);
     long double eps_s = f32s ? ldexpl(1.0L, -24) : ldexpl(1.0L, -52);
     long double d = def->sample_decimate_factor;
@@ -262,13 +263,13 @@ static int check_stats_request(struct jls_rd_s *rd, const model_t *m, int sig, c
         if (level == 0) { emin = (double) all.mn; emax = (double) all.mx; }
         if (out[JLS_SUMMARY_FSR_MIN] != emin || out[JLS_SUMMARY_FSR_MAX] != emax) {
             snprintf(key, sizeof(key), "single|minmax|level=%d|%s", level, fk(o));
-            v_violation("C02", key, wj, "min/max %.10g/%.10g, written samples give %.10g/%.10g", out[JLS_SUMMARY_FSR_MIN], out[JLS_SUMMARY_FSR_MAX], emin, emax);
+            v_violation(PS(o), key, wj, "min/max %.10g/%.10g, written samples give %.10g/%.10g", out[JLS_SUMMARY_FSR_MIN], out[JLS_SUMMARY_FSR_MAX], emin, emax);
             bad = 1;
         }
         long double tol = (16 * eps_s + (long double) incr * ldexpl(1.0L, -52)) * amax;
         if (!(fabsl((long double) out[JLS_SUMMARY_FSR_MEAN] - all.mean) <= tol)) {
             snprintf(key, sizeof(key), "single|mean|level=%d|%s", level, fk(o));
-            v_violation("C02", key, wj, "mean %.12g, exact %.12Lg (tolerance %.3Lg)", out[JLS_SUMMARY_FSR_MEAN], all.mean, tol);
+            v_violation(PS(o), key, wj, "mean %.12g, exact %.12Lg (tolerance %.3Lg)", out[JLS_SUMMARY_FSR_MEAN], all.mean, tol);
             bad = 1;
         }
         long double absn = ((f32s ? ldexpl(1.0L, -20) : ldexpl(1.0L, -45)) + (long double) incr * ldexpl(1.0L, -50)) * amax;
@@ -278,7 +279,7 @@ static int check_stats_request(struct jls_rd_s *rd, const model_t *m, int sig, c
         long double g = out[JLS_SUMMARY_FSR_STD];
         if (!(g >= lo && g <= hi)) {
             snprintf(key, sizeof(key), "single|std|level=%d|%s", level, fk(o));
-            v_violation("C02", key, wj, "std %.12Lg outside [%.12Lg, %.12Lg] (sample std %.12Lg)", g, lo, hi, all.sd);
+            v_violation(PS(o), key, wj, "std %.12Lg outside [%.12Lg, %.12Lg] (sample std %.12Lg)", g, lo, hi, all.sd);
             bad = 1;
         }
     } else {
@@ -299,7 +300,7 @@ static int check_stats_request(struct jls_rd_s *rd, const model_t *m, int sig, c
                 long double v = e[idx[q]];
                 if (!(v >= w.mn - tol && v <= w.mx + tol)) {
                     snprintf(key, sizeof(key), "multi|%s-outside|level=%d|%s", nm[q], level, fk(o));
-                    v_violation("C02", key, wj, "entry %lld %s %.12Lg outside [%.12Lg, %.12Lg] of its window widened by one increment", (long long) j, nm[q], v, w.mn, w.mx);
+                    v_violation(PS(o), key, wj, "entry %lld %s %.12Lg outside [%.12Lg, %.12Lg] of its window widened by one increment", (long long) j, nm[q], v, w.mn, w.mx);
                     bad = 1;
                     break;
                 }
@@ -310,7 +311,7 @@ static int check_stats_request(struct jls_rd_s *rd, const model_t *m, int sig, c
             long double tol2 = tol * 4;
             if (!(fabsl(avg - all.mean) <= tol2)) {
                 snprintf(key, sizeof(key), "multi|mean-of-means|level=%d|%s", level, fk(o));
-                v_violation("C02", key, wj, "average of entry means %.12Lg, exact mean of range %.12Lg (tolerance %.3Lg)", avg, all.mean, tol2);
+                v_violation(PS(o), key, wj, "average of entry means %.12Lg, exact mean of range %.12Lg (tolerance %.3Lg)", avg, all.mean, tol2);
                 bad = 1;
             }
         }
@@ -379,7 +380,7 @@ int verify_stats_signal(struct jls_rd_s *rd, const model_t *m, int sig, const ve
             ++nreq;
         }
     }
-    v_count("C02", "requests", nreq);
+    v_count(PS(o), "requests", nreq);
     return bad;
 }
 
@@ -854,9 +855,19 @@ int dump_file(const char *path, dump_t *d, uint64_t seed) {
     memset(d, 0, sizeof(*d));
     struct jls_rd_s *rd = NULL;
     v_api("jls_rd_open");
-    d->open_rc = jls_rd_open(&rd, path);
+    int32_t rc = jls_rd_open(&rd, path);
     v_api("");
-    if (d->open_rc) return d->open_rc;
+    if (rc) { d->open_rc = rc; return rc; }
+    dump_reader(rd, d, seed);
+    v_api("jls_rd_close");
+    jls_rd_close(rd);
+    v_api("");
+    return 0;
+}
+
+int dump_reader(struct jls_rd_s *rd, dump_t *d, uint64_t seed) {
+    memset(d, 0, sizeof(*d));
+    v_api("dump");
     rng_t r; rng_seed(&r, seed);
     struct jls_source_def_s *src; uint16_t n;
     uint64_t h = FNV_INIT;
@@ -935,7 +946,7 @@ int dump_file(const char *path, dump_t *d, uint64_t seed) {
     int32_t rc = jls_rd_user_data(rd, dump_user_cbk, &c);
     if (rc) { d->errors++; c.h = fnv1a(&rc, 4, c.h); }
     d->h_user = c.h;
-    jls_rd_close(rd);
+    v_api("");
     h = FNV_INIT;
     h = fnv1a(&d->h_sources, 8, h); h = fnv1a(&d->h_signals, 8, h); h = fnv1a(&d->h_user, 8, h);
     h = fnv1a(d->h_len, sizeof(d->h_len), h); h = fnv1a(d->h_samples, sizeof(d->h_samples), h); h = fnv1a(d->h_stats, sizeof(d->h_stats), h);
@@ -1113,5 +1124,153 @@ int decode_and_compare(const char *path, const model_t *m, const char *prop, con
         }
     }
     jd_free(&d);
+    return bad;
+}
+
+/* =====================================================================================
+ * prefix semantics (files reopened after a crash)
+ * ===================================================================================== */
+int verify_prefix(struct jls_rd_s *rd, const model_t *m, const char *prop, rng_t *r, const char *path, int64_t *lengths_out, const char *kind) {
+    char key[200], wj[300];
+    int bad = 0;
+    jd_t dec; int have_dec = 0;
+    if (jd_load(&dec, path) == 0) { jd_decode(&dec); have_dec = 1; }
+    verify_opts_t o; memset(&o, 0, sizeof(o));
+    o.prop_len = prop; o.prop_data = prop; o.prop_stats = prop; o.rng = r; o.file_kind = kind ? kind : "repaired"; o.windows = 6;
+    /* definitions: whatever is returned must be something that was submitted */
+    struct jls_source_def_s *src = NULL; uint16_t nsrc = 0;
+    v_api("jls_rd_sources");
+    if (!jls_rd_sources(rd, &src, &nsrc)) {
+        for (uint16_t i = 0; i < nsrc; ++i) {
+            int id = src[i].source_id;
+            if (id >= 256 || !m->src_defined[id]) { snprintf(key, sizeof(key), "prefix|phantom-source"); v_violation(prop, key, NULL, "source %d returned but never defined", id); bad++; continue; }
+            if (id && m->src_op[id] >= 0) {
+                const psrc_t *ps = &m->p->src[m->p->ops[m->src_op[id]].def];
+                const char *g[5] = {src[i].name, src[i].vendor, src[i].model, src[i].version, src[i].serial_number};
+                for (int q = 0; q < 5; ++q) if (!str_eq(g[q], ps->s[q])) { v_violation(prop, "prefix|source-altered", NULL, "source %d string %d altered", id, q); bad++; break; }
+            }
+        }
+    }
+    struct jls_signal_def_s *sg = NULL; uint16_t nsg = 0;
+    struct jls_signal_def_s defs[256];
+    v_api("jls_rd_signals");
+    if (jls_rd_signals(rd, &sg, &nsg)) nsg = 0;
+    v_api("");
+    for (uint16_t i = 0; i < nsg; ++i) defs[i] = sg[i];
+    for (uint16_t i = 0; i < nsg; ++i) {
+        int id = defs[i].signal_id;
+        if (id >= 256 || !m->sig[id].defined) { v_violation(prop, "prefix|phantom-signal", NULL, "signal %d returned but never defined", id); bad++; continue; }
+        const msig_t *s = &m->sig[id];
+        if (id) {
+            const struct jls_signal_def_s *w = &s->ps->def;
+            if (defs[i].source_id != w->source_id || defs[i].signal_type != w->signal_type || defs[i].data_type != w->data_type || !str_eq(defs[i].name, s->ps->name) || !str_eq(defs[i].units, s->ps->units)) {
+                v_violation(prop, "prefix|signal-altered", NULL, "signal %d definition altered", id); bad++; continue;
+            }
+        }
+        int64_t off = defs[i].sample_id_offset;
+        /* annotations: in-order subsequence, unaltered */
+        {
+            anno_coll_t c; memset(&c, 0, sizeof(c));
+            v_api("jls_rd_annotations");
+            int32_t rc = jls_rd_annotations(rd, (uint16_t) id, FAR_PAST, anno_cbk, &c);
+            v_api("");
+            if (!rc) {
+                size_t j = 0;
+                for (size_t k = 0; k < c.n; ++k) {
+                    int found = 0;
+                    for (; j < s->nanno; ++j) {
+                        anno_rec_t e; model_anno(m, id, j, &e);
+                        /* model_anno rebases by the model's first id; re-rebase by what the reader reports */
+                        const op_t *op = &m->p->ops[s->anno[j]];
+                        e.ts = op->ts - (s->fsr ? off : 0);
+                        if (anno_eq(&c.a[k], &e)) { found = 1; ++j; break; }
+                    }
+                    if (!found) { snprintf(key, sizeof(key), "prefix|annotation-not-submitted"); v_violation(prop, key, NULL, "signal %d: returned annotation %zu (ts %lld, size %u) is not an unaltered, in-order member of what was written", id, k, (long long) c.a[k].ts, c.a[k].size); bad++; break; }
+                }
+                v_count(prop, "annotations_checked", (int64_t) c.n);
+            } else v_count(prop, "annotation_iteration_errors", 1);
+            free(c.a);
+        }
+        if (defs[i].signal_type != JLS_SIGNAL_TYPE_FSR) continue;
+        /* UTC */
+        {
+            utc_coll_t c; memset(&c, 0, sizeof(c));
+            v_api("jls_rd_utc");
+            int32_t rc = jls_rd_utc(rd, (uint16_t) id, FAR_PAST, utc_cbk, &c);
+            v_api("");
+            if (!rc) {
+                size_t j = 0;
+                for (size_t k = 0; k < c.n; ++k) {
+                    int found = 0;
+                    for (; j < s->nutc; ++j) {
+                        const op_t *op = &m->p->ops[s->utc[j]];
+                        if (c.e[k].sample_id == op->sid - off && c.e[k].timestamp == op->utc) { found = 1; ++j; break; }
+                    }
+                    if (!found) { v_violation(prop, "prefix|utc-not-submitted", NULL, "signal %d: returned UTC pair %zu (%lld,%lld) is not an in-order member of what was written", id, k, (long long) c.e[k].sample_id, (long long) c.e[k].timestamp); bad++; break; }
+                }
+                v_count(prop, "utc_checked", (int64_t) c.n);
+            } else v_count(prop, "utc_iteration_errors", 1);
+            free(c.e);
+        }
+        /* samples */
+        int64_t got = -1;
+        v_api("jls_rd_fsr_length");
+        int32_t rc = jls_rd_fsr_length(rd, (uint16_t) id, &got);
+        v_api("");
+        if (rc) { v_count(prop, "length_errors", 1); if (lengths_out) lengths_out[id] = -1; continue; }
+        if (lengths_out) lengths_out[id] = got;
+        int64_t exp = msig_length(s);
+        snprintf(wj, sizeof(wj), "{\"signal\":%d,\"type\":\"%s\",\"submitted\":%lld,\"got\":%lld}", id, s->dt->name, (long long) exp, (long long) got);
+        if (got > exp || got < 0) { snprintf(key, sizeof(key), "prefix|length-exceeds-submitted"); v_violation(prop, key, wj, "signal %d length %lld but only %lld samples were submitted", id, (long long) got, (long long) exp); bad++; continue; }
+        if (got > 0 && s->have && off != s->first) { v_violation(prop, "prefix|first-id-altered", wj, "signal %d first sample id %lld, written %lld", id, (long long) off, (long long) s->first); bad++; continue; }
+        if (got > 0) {
+            win_t *wins = NULL; size_t nw = 0, cap = 0;
+            gen_windows(&wins, &nw, &cap, id, got, defs[i].samples_per_data, 4, r, s->dt->bits);
+            const jd_signal_t *ds = (have_dec && dec.sig[id].present) ? &dec.sig[id] : NULL;
+            for (size_t k = 0; k < nw; ++k) if (check_window(rd, m, &wins[k], &o, have_dec ? &dec : NULL, ds, defs[i].samples_per_data, 1)) { bad++; break; }
+            v_count(prop, "windows_compared", (int64_t) nw);
+            free(wins);
+            /* statistics agree with the submitted prefix */
+            if (s->dt->bits != 64 || 1) {
+                int64_t sdf = defs[i].sample_decimate_factor ? defs[i].sample_decimate_factor : 1;
+                for (int q = 0; q < 3 && !bad; ++q) {
+                    int64_t incr, count;
+                    if (q == 0) { incr = got; count = 1; }
+                    else if (q == 1) { incr = sdf; count = got / sdf; if (count > 40) count = 40; }
+                    else { incr = 1 + (int64_t) rng_below(r, (uint64_t) (got < 50 ? got : 50)); count = 1; }
+                    if (count < 1 || incr < 1 || incr * count > got) continue;
+                    int lv = 0; int64_t mult = sdf; int64_t sumdf = defs[i].summary_decimate_factor ? defs[i].summary_decimate_factor : 10;
+                    while (incr >= mult && incr * count >= 25 * mult) { ++lv; mult *= sumdf; }
+                    /* blocks omitted on request hold synthesised samples: statistics over them are not comparable */
+                    if (s->omit_ever && s->dt->bits > 8) continue;
+                    bad += check_stats_request(rd, m, id, &o, 0, incr, count, &defs[i], lv);
+                }
+            }
+        }
+    }
+    /* user data: in-order subsequence */
+    {
+        user_coll_t c; memset(&c, 0, sizeof(c));
+        v_api("jls_rd_user_data");
+        int32_t rc = jls_rd_user_data(rd, user_cbk, &c);
+        v_api("");
+        if (!rc) {
+            size_t j = 0;
+            for (size_t k = 0; k < c.n; ++k) {
+                int found = 0;
+                for (; j < m->nuser; ++j) {
+                    const op_t *op = &m->p->ops[m->user[j]];
+                    uint8_t *b = gen_payload(op->stype, op->dsize, op->dseed);
+                    uint64_t h = fnv1a(b, op->dsize, FNV_INIT);
+                    free(b);
+                    if (c.a[k].meta == (op->meta & 0x0fff) && c.a[k].stype == op->stype && c.a[k].size == op->dsize && c.a[k].h == h) { found = 1; ++j; break; }
+                }
+                if (!found) { v_violation(prop, "prefix|user-data-not-submitted", NULL, "returned user-data item %zu (size %u) is not an unaltered, in-order member of what was written", k, c.a[k].size); bad++; break; }
+            }
+            v_count(prop, "user_data_checked", (int64_t) c.n);
+        }
+        free(c.a);
+    }
+    if (have_dec) jd_free(&dec);
     return bad;
 }
